@@ -1,0 +1,13 @@
+//go:build verif
+
+// Verification hook (build tag "verif" only) for property C10: the per-proxy state refresh a push performs before
+// generating (sidecar scope, service targets). No behaviour change; absent from normal builds.
+
+package xds
+
+import "istio.io/istio/pilot/pkg/model"
+
+// VerifC10ComputeProxyState exposes DiscoveryServer.computeProxyState.
+func VerifC10ComputeProxyState(s *DiscoveryServer, proxy *model.Proxy, req *model.PushRequest) {
+	s.computeProxyState(proxy, req)
+}
